@@ -2034,8 +2034,13 @@ func generateScenarios(prop string, seed uint64, n int, adv bool) []*scenario {
 					// children" for the v1 view: the older revision's answer omits the children it still claims
 					h2 := sc.Hook
 					h2.EmptyForImage = "v1"
-					sc.Hook2 = &h2
 					sc.Features = append(sc.Features, "old-revision-answer-omits-claimed-children")
+					if r.Bool() {
+						// ... or the latest revision's: children it has already taken over are missing from its answer
+						h2.EmptyForImage = "v2"
+						sc.Features[len(sc.Features)-1] = "latest-revision-answer-omits-claimed-children"
+					}
+					sc.Hook2 = &h2
 				}
 			default:
 				sc.Hook.Status, sc.Hook.OmitStatus, sc.Hook.NullStatus = nil, false, true // status: null
